@@ -84,6 +84,7 @@ HARNESSES = [
       for (n, sv, f) in (
         ("k_capi_mz_inflate", ["C17", "C06", "C11", "C13", "C14", "C16"], ["mz_inflate", "mz_inflateInit2", "mz_inflateEnd", "mz_inflate_oxide", "mz_inflate_init2_oxide", "StreamOxide::try_new", "StreamOxide::into_mz_stream", "MZFlush::new", "as_c_return_code"]),
         ("k_capi_custom_allocators_rejected", ["C17"], ["StreamOxide::try_new"]),
+        ("k_capi_deflate_reset_fields", ["C16", "C17", "C18"], ["mz_deflate_reset_oxide", "Compressor::reset"]),
         ("k_capi_tinfl_mem_to_heap", ["C17"], ["tinfl_decompress_mem_to_heap", "miniz_def_alloc_func", "miniz_def_realloc_func", "miniz_def_free_func"]),
         ("k_capi_tinfl_decompress", ["C17", "C06"], ["tinfl_decompress"]),
         ("k_capi_tinfl_mem_to_mem", ["C17"], ["tinfl_decompress_mem_to_mem"]),
@@ -238,7 +239,7 @@ MANIFEST_NOTES = (
     "Family: contract-based deductive verification of the real code. Every claimed property is decided by a named set of "
     "component contracts (see evidence coverage.samples); compositions that neither Kani nor Verus can reach here "
     "(whole decoder automaton runs, the three compressor loops) are listed under coverage.not_covered / assumptions in "
-    "each evidence file and in DESIGN.md §4. Five genuine defects found by the checks were repaired in /repo with fix: "
+    "each evidence file and in DESIGN.md §4. Six genuine defects found by the checks were repaired in /repo with fix: "
     "commits and one (MinReset keeps the window) is recorded as a known finding (known_findings.txt, DESIGN.md §5). "
     "84 seeded property-breaking changes written by sub-agents that saw only the property text are kept under seeded/; "
     "all 84 are reported as VIOLATION by the quick-tier check of their property (seeded/MATRIX.md, DESIGN.md §9)."
